@@ -121,6 +121,17 @@ _ALL_QUANTITIES = (
     "[]{ std::string s; VERIF_QUANTITIES(C19_ONE_QUANTITY) return s; }()")
 
 FACILITIES += [
+    ("scalar-in-standard-unit", ["Length"],
+     "[]{ const auto q = PhQ::Length<T>::template Create<PhQ::Unit::Length::Foot>(static_cast<T>(1.25)); "
+     "return c19::R(q.Value(PhQ::Unit::Length::Metre)) + q.Print(PhQ::Unit::Length::Metre) + q.JSON(PhQ::Unit::Length::Metre) + q.XML(PhQ::Unit::Length::Metre) + q.YAML(PhQ::Unit::Length::Metre); }()", False),
+    ("vector-tensor-in-standard-unit", ["Velocity", "Stress", "PlanarForce", "VelocityGradient"],
+     "[]{ const auto v = PhQ::Velocity<T>::template Create<PhQ::Unit::Speed::MetrePerSecond>(static_cast<T>(1), static_cast<T>(-2), static_cast<T>(3.5)); "
+     "const auto s = PhQ::Stress<T>::template Create<PhQ::Unit::Pressure::Pascal>(static_cast<T>(1), static_cast<T>(2), static_cast<T>(3), static_cast<T>(4), static_cast<T>(5), static_cast<T>(6)); "
+     "const auto f = PhQ::PlanarForce<T>::template Create<PhQ::Unit::Force::Newton>(static_cast<T>(7), static_cast<T>(-8)); "
+     "const auto g = PhQ::VelocityGradient<T>::template Create<PhQ::Unit::Frequency::Hertz>(static_cast<T>(1), static_cast<T>(2), static_cast<T>(3), static_cast<T>(4), static_cast<T>(5), static_cast<T>(6), static_cast<T>(7), static_cast<T>(8), static_cast<T>(9)); "
+     "return c19::R(v.Value(PhQ::Unit::Speed::MetrePerSecond)) + v.Print(PhQ::Unit::Speed::MetrePerSecond) + v.JSON(PhQ::Unit::Speed::MetrePerSecond) "
+     "+ s.Print(PhQ::Unit::Pressure::Pascal) + s.YAML(PhQ::Unit::Pressure::Pascal) + f.XML(PhQ::Unit::Force::Newton) + c19::R(f.Value(PhQ::Unit::Force::Newton)) "
+     "+ g.Print(PhQ::Unit::Frequency::Hertz); }()", False),
     ("all-unit-type-tables", ["@allu.hpp"], _ALL_UNITS, False),
     ("all-quantity-print-json", ["@allq.hpp"], _ALL_QUANTITIES, False),
     ("constitutive-model-serialise", ["ConstitutiveModel/ElasticIsotropicSolid", "ConstitutiveModel/CompressibleNewtonianFluid",
@@ -143,14 +154,16 @@ def includes_for(names):
     return "\n".join(out)
 
 
-def facility_program(fac):
-    """One program, one facility, all three numeric types. Output lines: RESULT <facility> <T> <equal> <static> <main>"""
+def facility_program(fac, holder="static"):
+    """One program, one facility, all three numeric types; the namespace-scope object is an ordinary
+    (internal-linkage) variable or an inline variable.  Output lines: RESULT <facility> <T> <equal> <static> <main>"""
     name, incs, expr, _ = fac
+    decl = "static const" if holder == "static" else "inline const"
     src = PRELUDE % {"includes": includes_for(incs), "tu": "main", "probe": "static const c19::Probe c19_probe;"}
     for tname, suf in NUMERIC:
         src += "\nnamespace user_%s { using T = %s;\n" % (suf, tname)
         src += "static std::string compute() { return c19::R(%s); }\n" % expr
-        src += "static const std::string at_static_init = compute();\n}\n"
+        src += "%s std::string at_static_init = compute();\n}\n" % decl
     src += "\nint main() {\n  int bad = 0;\n"
     for tname, suf in NUMERIC:
         src += ('  { const std::string m = user_%s::compute(); const bool eq = (m == user_%s::at_static_init); bad += !eq;\n'
